@@ -323,6 +323,7 @@ func (vlog *valueLog) rewrite(f *logFile) error {
 		return err
 	}
 
+	y.VerifPoint("gc.scanned")
 	// vlogGCPauseHook fires here in tests to inject a delete + compaction
 	// into the race window between Phase 1 (scan) and Phase 2 (write-back).
 	if vlog.db.vlogGCPauseHook != nil {
@@ -351,6 +352,7 @@ func (vlog *valueLog) rewrite(f *logFile) error {
 		}
 		i += batchSize
 	}
+	y.VerifPoint("gc.writtenback")
 	vlog.opt.Infof("Processed %d entries in %d loops", len(wb), loops)
 	vlog.opt.Infof("Total entries: %d. Moved: %d", count, moved)
 	vlog.opt.Infof("Removing fid: %d", f.fid)
@@ -372,6 +374,7 @@ func (vlog *valueLog) rewrite(f *logFile) error {
 		vlog.filesLock.Unlock()
 	}
 
+	y.VerifPoint("gc.predelete")
 	if deleteFileNow {
 		if err := vlog.deleteLogFile(f); err != nil {
 			return err
@@ -403,6 +406,7 @@ func (vlog *valueLog) decrIteratorCount() error {
 	vlog.filesToBeDeleted = nil
 	vlog.filesLock.Unlock()
 
+	y.VerifPoint("gc.deferred")
 	for _, lf := range lfs {
 		if err := vlog.deleteLogFile(lf); err != nil {
 			return err
@@ -420,6 +424,7 @@ func (vlog *valueLog) deleteLogFile(lf *logFile) error {
 	// Delete fid from discard stats as well.
 	vlog.discardStats.Update(lf.fid, -1)
 
+	y.VerifIO("unlink", lf.path)
 	return lf.Delete()
 }
 
@@ -615,6 +620,7 @@ func (vlog *valueLog) open(db *DB) error {
 		// We shouldn't delete the maxFid file.
 		if lf.size.Load() == vlogHeaderSize && fid != vlog.maxFid && !vlog.opt.ReadOnly {
 			vlog.opt.Infof("Deleting empty file: %s", lf.path)
+			y.VerifIO("unlink", lf.path)
 			if err := lf.Delete(); err != nil {
 				return y.Wrapf(err, "while trying to delete empty file: %s", lf.path)
 			}
@@ -662,6 +668,7 @@ func (vlog *valueLog) Close() error {
 		if !vlog.opt.ReadOnly && id == vlog.maxFid {
 			offset = int64(vlog.woffset())
 		}
+		y.VerifIO("closetrunc", lf.path)
 		if terr := lf.Close(offset); terr != nil && err == nil {
 			err = terr
 		}
@@ -769,6 +776,7 @@ func (vlog *valueLog) sync() error {
 	curlf.lock.RLock()
 	vlog.filesLock.RUnlock()
 
+	y.VerifIO("msync", curlf.path)
 	err := curlf.Sync()
 	curlf.lock.RUnlock()
 	return err
@@ -831,6 +839,7 @@ func (vlog *valueLog) write(reqs []*request) error {
 
 	defer func() {
 		if vlog.opt.SyncWrites {
+			y.VerifIO("msync", curlf.path)
 			if err := curlf.Sync(); err != nil {
 				vlog.opt.Errorf("Error while curlf sync: %v\n", err)
 			}
@@ -853,6 +862,7 @@ func (vlog *valueLog) write(reqs []*request) error {
 		}
 
 		start := int(endOffset - n)
+		y.VerifIO("mmapwrite", curlf.path)
 		y.AssertTrue(copy(curlf.Data[start:], buf.Bytes()) == int(n))
 
 		curlf.size.Store(endOffset)
@@ -1185,6 +1195,7 @@ func (v *vlogThreshold) Clear(opt Options) {
 }
 
 func (v *vlogThreshold) update(sizes []int64) {
+	y.VerifPoint("threshold.update")
 	v.valueCh <- sizes
 }
 
@@ -1210,6 +1221,7 @@ func (v *vlogThreshold) listenForValueThresholdUpdate() {
 				if v.logger != nil {
 					v.logger.Infof("updating value of threshold to: %d", p)
 				}
+				y.VerifPoint("threshold.store")
 				v.valueThreshold.Store(p)
 			}
 		case <-v.clearCh:
